@@ -4,6 +4,7 @@ Spec: spec/TMLight.tla (operators), spec/TMLightWorld.tla (bounded universe),
 spec/TMLightClient.tla (design state machine); trace spec: spec/trace/TMLightTrace.tla;
 harness: harness/inpkg/light/zz_verif_c09_test.go (overlay, package light_test)."""
 import hashlib
+import itertools
 import json
 import os
 from concurrent.futures import ThreadPoolExecutor
@@ -15,8 +16,9 @@ from vlib.tlaparse import to_json, parse_behaviour_text
 WEAK_CASES = ["SkipTrustLevel", "AdjacentIgnoresNextVals", "NoExpiry", "FutureHeaderOK", "TrustLevelOnNewSet"]
 WEAK_CLIENT = ["SkipTrustLevel", "AdjacentIgnoresNextVals", "NoExpiry", "FutureHeaderOK", "TrustLevelOnNewSet",
                "MismatchAlsoCountsAsMatch", "NoWitnessNeeded", "BackwardsUnbound", "ReplacementHashUnchecked",
-               "PromotedWitnessStays", "PartialTraceOnBenignError"]
+               "PromotedWitnessStays", "PartialTraceOnBenignError", "DivergentHeaderExaminedOncePerRun"]
 PROPS = {"TrustRootOnly", "StoreSound", "WitnessConfirmed", "IndependentWitness", "NoConfirmationFromSilence", "AttackReported",
+         "OrderIndependent", "AttackerNeverOutvoted",
          "AttackStoresNothing", "StoreMonotone"}
 CASE_PROPS = {"VerifierSound", "AdjacentSound", "NonAdjacentSound", "BackwardsSound"}
 
@@ -146,10 +148,21 @@ def _inputs(ctx, quick):
         d3 = os.path.join(ctx.work, "world4")
         ctx.tlc("C09_world", hw, dump=[d3], must_pass=True, timeout=300, workers=2, label="world_4")
         pers4 = to_json(core.read_state_dump(d3 + ".dump")[0]["w"])["personas"]
+    # every attack schedule is replayed under EVERY arrival order of the witness replies (the
+    # gates force the order): the verdict must not depend on which reply is processed first
     for w, tr in attacks:
         r = _run_from_behaviour(tr, pers4, "attack:" + w)
-        if r:
-            runs.append(r)
+        if not r:
+            continue
+        runs.append(r)
+        if len(r["wits"]) <= 4:
+            for perm in itertools.permutations(r["wits"]):
+                if not r["steps"] or list(perm) == r["steps"][-1]["sched"]:
+                    continue
+                v = dict(r)
+                v["steps"] = [dict(st, sched=list(perm)) for st in r["steps"]]
+                v["src"] = "attack:" + w + ":reordered"
+                runs.append(v)
     out["runs"] = runs
     out["r_sim"] = rs
     return out
